@@ -366,7 +366,8 @@ class RankRun:
                 if low.startswith("!$omp parallel do") or \
                         low.startswith("!$omp do") or \
                         low.startswith("!$omp taskloop") or \
-                        low.startswith("!$acc loop") or \
+                        (low.startswith("!$acc loop") and
+                         " seq" not in low) or \
                         low.startswith("!$acc kernels") or \
                         low.startswith("!$omp loop"):
                     pending_omp = low
